@@ -96,7 +96,13 @@ fn apply(sh: &Shared) {
     }
     if s.phc < 0 {
         let _ = std::fs::remove_file(&sh.phc_path);
+        let _ = std::fs::remove_dir(&sh.phc_path);
+        if s.phc == -2 {
+            // an attribute that can be opened but not read (read(2) on a directory fails with EISDIR)
+            let _ = std::fs::create_dir(&sh.phc_path);
+        }
     } else {
+        let _ = std::fs::remove_dir(&sh.phc_path);
         std::fs::write(&sh.phc_path, format!("{}\n", s.phc)).expect("phc file");
     }
 }
